@@ -498,6 +498,12 @@ func c04Errors(r *Run, scope []*ssa.Function) {
 		})
 	}
 	r.Floor("error-propagation", n, 15, "error-returning calls on the decode path")
+	// … and a failed step never continues to a success return (a sentinel let through by the test is a partial decode)
+	ng := 0
+	for _, fn := range scope {
+		ng += errorGatesSuccess(r, fn, "error-gates-success")
+	}
+	r.Floor("error-gates-success", ng, 15, "error-returning steps on the decode path")
 }
 
 func c04UnknownType(r *Run) {
